@@ -112,13 +112,13 @@ func (r *c17Run) deliver(wid int, class string, i int) {
 	if class == "ok" && !ca {
 		// two situations are known findings with their own keys; anything else is a plain violation
 		// (each known key is tied to its own history: the stale-object one to the application of the event of a
-		// request whose CreateTorrent saw the blob cached; the eviction one to a completion notice applied after the
-		// eviction. An `ok` for an evicted blob from a request's own event — e.g. the complete-control fast path — is
+		// request whose CreateTorrent saw the blob cached; the eviction one to the waiters of a completed torrent being
+		// answered — by its completion notice or by its idle removal — after the eviction. An `ok` for an evicted blob from a request's own event — e.g. the complete-control fast path — is
 		// neither.)
 		key := "success-without-blob"
 		if q := r.reqs[wid]; q != nil && q.staleComplete && r.curOp == "apply" {
 			key = "success-from-stale-torrent-object"
-		} else if i >= 0 && r.evicted[i] && r.curOp == "notice" {
+		} else if i >= 0 && r.evicted[i] && (r.curOp == "notice" || r.curOp == "tick") {
 			key = "success-after-eviction"
 		}
 		r.tr.PropFail(key, fmt.Sprintf("w%d", wid))
